@@ -75,6 +75,13 @@ def gen(rng, k, explicit_defaults=False):
     if rng.random() < 0.3:
         lexs.append(g.lexicon('b', '2', v, requires=[{'id': 'a', 'version': '1', 'url': 'http://a'}] if v != '1.0' else None))
     res = docs.resource(lexs, v)
+    if v != '1.0':
+        # pronunciations with phonemic="false" on every kind of form-like element, external ones included
+        for lx in res['lexicons']:
+            for e in lx.get('entries', []):
+                for f in ([e['lemma']] if e.get('lemma') else []) + e.get('forms', []):
+                    if rng.random() < 0.35:
+                        f.setdefault('pronunciations', []).append({'text': 'pr ' + str(rng.randrange(99)), 'phonemic': False})
     if not explicit_defaults:
         # strict stream: no explicitly written default values (they belong to the canon stream)
         for lx in res['lexicons']:
